@@ -180,6 +180,72 @@ for _u in _C13.UNITS:
 for _u in _C13.KP_UNITS:
     _v = copy.deepcopy(_u); _v["name"] = _v["name"].replace("c13_", "c11_"); UNITS.append(_v)
 
+# ---------------------------------------------------------------- layer D: planner-side heap owners (anchors SearchQueue.cpp, AITstar.cpp, ReverseQueue.cpp): key edits are followed by update()/rebuild()
+import re as _re
+RQF = "src/ompl/geometric/planners/informedtrees/eitstar/src/ReverseQueue.cpp"
+SQF = "src/ompl/geometric/planners/informedtrees/bitstar/src/SearchQueue.cpp"
+AITF = "src/ompl/geometric/planners/informedtrees/src/AITstar.cpp"
+_S = _re.S
+OWN_RULES = [
+    (r"ASSERT_SETUP", "", 0), (r"#ifdef BITSTAR_DEBUG.*?#endif", "", 0, _S), (r"\bassert\((?:[^()]|\((?:[^()]|\((?:[^()]|\([^()]*\))*\))*\))*\);", "", 0),
+    # EIT* ReverseQueue
+    (r"const auto &lookup = edge\.source->asReverseVertex\(\)->outgoingReverseQueueLookup_;", "", 0),
+    (r"const auto it = std::find_if\(lookup\.cbegin\(\), lookup\.cend\(\), \[&edge\]\(const auto &p\) \{.*?\}\);", "int it = FIND_IN_LOOKUP();", 0, _S),
+    (r"it == lookup\.cend\(\)", "it < 0", 0),
+    (r"std::get<(\d)>\(\(\*it\)->data\) = [^;]+;", r"KEY_WRITE(LOOKUP[it], \1);", 0), (r"queue_\.update\(\*it\);", "HEAP_UPDATE(LOOKUP[it]);", 0),
+    (r"updateIfExists\(edge\)", "rq_updateIfExists()", 0), (r"const auto key\d = compute\w+\(edge\);", "", 0), (r"const auto element = std::make_tuple\([^;]*\);", "", 0),
+    (r"const auto elementPointer = queue_\.insert\(element\);", "ElemRef elementPointer = HEAP_INSERT();", 0),
+    (r"edge\.source->asReverseVertex\(\)->outgoingReverseQueueLookup_\.emplace_back\(elementPointer\);", "LOOKUP_PUSH(elementPointer);", 0),
+    # BIT* SearchQueue
+    (r"std::vector<SortKeyAndVertexPtrPair> contentCopy;\s*edgeQueue_\.getContent\(contentCopy\);", "", 0),
+    (r"std::set<VertexPtr> parents;\s*for \(const auto &element : contentCopy\)\s*\{\s*parents\.insert\(element\.second\.first\);\s*\}", "", 0),
+    (r"for \(const auto &parent : parents\)\s*\{\s*for \(auto it = parent->edgeQueueOutLookupConstBegin\(\); it != parent->edgeQueueOutLookupConstEnd\(\); \+\+it\)\s*\{(.*?)\}\s*\}",
+     r"{ for (unsigned it = 0; it < LOOKUP_n; ++it) {\1} }", 0, _S),
+    (r"\(\*it\)->data\.first = this->createSortKey\(\(\*it\)->data\.second\);", "KEY_WRITE(LOOKUP[it], 0);", 0),
+    (r"edgeQueue_\.rebuild\(\);", "HEAP_REBUILD();", 0),
+    (r"elementPtr->data\.first = createSortKey\(elementPtr->data\.second\);", "KEY_WRITE(elementPtr, 0);", 0), (r"edgeQueue_\.update\((\w+)\);", r"HEAP_UPDATE(\1);", 0),
+    (r"const VertexPtr &parent = edge\.first;\s*const VertexPtr &child = edge\.second;", "", 0),
+    (r"EdgeQueueElemPtr updateEdge = nullptr;\s*for \(auto it = child->edgeQueueInLookupConstBegin\(\); it != child->edgeQueueInLookupConstEnd\(\); \+\+it\)\s*\{.*?\n            \}",
+     "ElemRef updateEdge = NULLREF; { int i_ = FIND_IN_LOOKUP(); if (i_ >= 0) updateEdge = LOOKUP[i_]; }", 0, _S),
+    (r"updateEdge->data\.first = this->createSortKey\(edge\);", "KEY_WRITE(updateEdge, 0);", 0), (r"EdgeQueueElemPtr edgeElemPtr;", "ElemRef edgeElemPtr;", 0),
+    (r"edgeElemPtr = edgeQueue_\.insert\(std::make_pair\(this->createSortKey\(edge\), edge\)\);", "edgeElemPtr = HEAP_INSERT();", 0),
+    (r"parent->insertInEdgeQueueOutLookup\(edgeElemPtr\);", "LOOKUP2_PUSH(edgeElemPtr);", 0), (r"child->insertInEdgeQueueInLookup\(edgeElemPtr\);", "LOOKUP_PUSH(edgeElemPtr);", 0),
+    # AIT*
+    (r"vertex->isConsistent\(\)", "nondet_bool()", 0), (r"numInconsistentOrUnconnectedTargets_ \+= vertex->getForwardQueueIncomingLookup\(\)\.size\(\);", "counter_ += LOOKUP_n;", 0),
+    (r"graph_\.isGoal\(vertex\)", "nondet_bool()", 0), (r"vertex->getReverseParent\(\)->removeFromReverseChildren\(vertex->getId\(\)\);", "", 0), (r"vertex->reset\w+\(\);", "", 0),
+    (r"for \(const auto &edge : vertex->getForwardQueueIncomingLookup\(\)\)\s*\{", "for (unsigned k_ = 0; k_ < LOOKUP_n; ++k_) { ElemRef edge = LOOKUP[k_];", 0),
+    (r"edge->data\.setSortKey\(computeSortKey\(edge->data\.getParent\(\), edge->data\.getChild\(\)\)\);", "KEY_WRITE(edge, 0);", 0), (r"forwardQueue_\.update\((\*?\w+)\);", r"HEAP_UPDATE(\1);", 0),
+    (r"auto reverseQueuePointer = vertex->getReverseQueuePointer\(\);\s*if \(reverseQueuePointer\)\s*\{\s*reverseQueue_\.remove\(reverseQueuePointer\);\s*\}", "if (nondet_bool()) { /* removal from the REVERSE queue: a different heap, no requirement on the forward queue's keys */ }", 0),
+    (r"for \(const auto &child : vertex->getReverseChildren\(\)\)\s*\{\s*invalidateCostToComeFromGoalOfReverseBranch\(child\);\s*\}", "for (unsigned c_ = 0; c_ < NCHILD; ++c_) { HEAP_OP(); /* the recursive call operates on both queues */ }", 0),
+    (r"updateReverseSearchVertex\(vertex\);", "HEAP_OP();", 0),
+    (r"const auto &lookup = edge\.getChild\(\)->getForwardQueueIncomingLookup\(\);", "", 0), (r"const auto lookup = edge\.getChild\(\)->getForwardQueueIncomingLookup\(\);", "", 0),
+    (r"const auto it = std::find_if\(lookup\.begin\(\), lookup\.end\(\), \[&edge\]\(const auto element\) \{.*?\}\);", "int it = FIND_IN_LOOKUP();", 0, _S),
+    (r"it != lookup\.end\(\)", "it >= 0", 0), (r"isEdgeBetter\(edge, \(\*it\)->data\)", "nondet_bool()", 0),
+    (r"\(\*it\)->data\.setSortKey\(edge\.getSortKey\(\)\);", "KEY_WRITE(LOOKUP[it], 0);", 0), (r"HEAP_UPDATE\(\*it\)", "HEAP_UPDATE(LOOKUP[it])", 0),
+    (r"auto element = forwardQueue_\.insert\(edge\);", "ElemRef element = HEAP_INSERT();", 0), (r"edge\.getParent\(\)->addToForwardQueueOutgoingLookup\(element\);", "LOOKUP2_PUSH(element);", 0),
+    (r"edge\.getChild\(\)->addToForwardQueueIncomingLookup\(element\);", "LOOKUP_PUSH(element);", 0),
+    (r"!edge\.getChild\(\)->isConsistent\(\) \|\| !objective_->isFinite\(edge\.getChild\(\)->getCostToComeFromGoal\(\)\)", "nondet_bool()", 0), (r"\+\+numInconsistentOrUnconnectedTargets_;", "counter_++;", 0),
+]
+def _own(name, file, sig):
+    return dict(name=name, file=file, sig=sig, rules=OWN_RULES, loops={"allow_uncontracted": True})
+OWN_SRC = [
+    _own("rq_updateIfExists", RQF, r"bool ReverseQueue::updateIfExists\(const Edge &edge\)"), _own("rq_insertOrUpdate", RQF, r"void ReverseQueue::insertOrUpdate\(const Edge &edge\)"),
+    _own("sq_rebuildEdgeQueue", SQF, r"void BITstar::SearchQueue::rebuildEdgeQueue\(\)"), _own("sq_update", SQF, r"void BITstar::SearchQueue::update\(const EdgeQueueElemPtr elementPtr\)"),
+    _own("sq_enqueueEdge", SQF, r"void BITstar::SearchQueue::enqueueEdge\(const VertexPtrPair &edge\)"),
+    _own("ait_invalidateBranch", AITF, r"void AITstar::invalidateCostToComeFromGoalOfReverseBranch\(const std::shared_ptr<Vertex> &vertex\)"),
+    _own("ait_insertOrUpdateInForwardQueue", AITF, r"void AITstar::insertOrUpdateInForwardQueue\(const Edge &edge\)"),
+]
+for _h, _fn, _needs, _can in (
+        ("rq_updateIfExists", "eitstar::ReverseQueue::updateIfExists", ["rq_updateIfExists"], [dict(name="resorted_only_if_cost_changed", where="body:rq_updateIfExists", rx=r"HEAP_UPDATE\(LOOKUP\[it\]\);", repl="if (nondet_bool()) HEAP_UPDATE(LOOKUP[it]);")]),
+        ("rq_insertOrUpdate", "eitstar::ReverseQueue::insertOrUpdate(edge)", ["rq_updateIfExists", "rq_insertOrUpdate"], [dict(name="handle_not_remembered", where="body:rq_insertOrUpdate", rx=r"LOOKUP_PUSH\(elementPointer\);", repl=";")]),
+        ("sq_rebuildEdgeQueue", "BITstar::SearchQueue::rebuildEdgeQueue", ["sq_rebuildEdgeQueue"], [dict(name="rebuild_skipped_for_some_factor", where="body:sq_rebuildEdgeQueue", rx=r"HEAP_REBUILD\(\);", repl="if (nondet_bool()) HEAP_REBUILD();")]),
+        ("sq_update", "BITstar::SearchQueue::update", ["sq_update"], [dict(name="key_refreshed_not_resorted", where="body:sq_update", rx=r"HEAP_UPDATE\(elementPtr\);", repl=";")]),
+        ("sq_enqueueEdge", "BITstar::SearchQueue::enqueueEdge", ["sq_enqueueEdge"], [dict(name="existing_edge_not_resorted", where="body:sq_enqueueEdge", rx=r"HEAP_UPDATE\(updateEdge\);", repl=";")]),
+        ("ait_invalidateBranch", "AITstar::invalidateCostToComeFromGoalOfReverseBranch", ["ait_invalidateBranch"], [dict(name="resort_left_to_the_final_vertex_update", where="body:ait_invalidateBranch", rx=r"HEAP_UPDATE\(edge\);", repl=";")]),
+        ("ait_insertOrUpdateInForwardQueue", "AITstar::insertOrUpdateInForwardQueue(edge)", ["ait_insertOrUpdateInForwardQueue"], [dict(name="better_key_not_resorted", where="body:ait_insertOrUpdateInForwardQueue", rx=r"HEAP_UPDATE\(LOOKUP\[it\]\);", repl=";")])):
+    UNITS.append(dict(name="c11_owner_" + _h, template="C11/heap_owner.c", mode="plain", entry="h_" + _h, sources=OWN_SRC, needs=_needs, flags=["--bounds-check", "--pointer-check"], unwind=8, level="bounded",
+                      bound="<= 3 handles in a lookup, <= 6 heap elements, <= 2 recursive calls", backend="minisat", timeout=300, functions=[_fn], canaries=_can))
+
 ASSUMPTIONS = [
     "the user's comparison functor is a strict weak order (then a heap of <= N elements behaves exactly as under 8-bit rank keys)",
     "operator new does not throw; event callbacks do not touch the heap",
